@@ -1,6 +1,6 @@
 (* C10 - blocked callers are woken when capacity frees (no lost wake-up or hand-off). *)
 From Coq Require Import ZArith List Bool.
-From GCL Require Import Model.Waiters Proofs.WaitersProofs Model.BlockingLTS Proofs.BlockingLTSProofs Model.QueueLTS Proofs.QueueLTSProofs.
+From GCL Require Import Model.Waiters Proofs.WaitersProofs Proofs.WaitersDrain Model.BlockingLTS Proofs.BlockingLTSProofs Model.QueueLTS Proofs.QueueLTSProofs.
 Import ListNotations.
 
 (* Settled granularity (every operation runs to quiescence): a release on the queue limiter with callers waiting and room
@@ -40,3 +40,10 @@ Theorem C10_queue_refuted_giveup_during_handoff :
   exists sched, ends_in QueueLTS.stranded (init1 FIFO 10 [QueueLTS.Holding; W0; W0]) sched = true.
 Proof. exact QueueLTSProofs.C10_queue_refuted_giveup_during_handoff. Qed.
 Print Assumptions C10_queue_refuted_giveup_during_handoff.
+
+(* Settled granularity, all three wrappers (blocking, deadline, queue): whenever a holder releases while callers are blocked, at least one
+   of them holds a token when the operation settles - no further release, timeout or cancellation is needed. *)
+Theorem C10_release_serves_settled s i c pref : nth_error (ws_callers s) i = Some c -> c_st c = 1%Z -> within s -> (0 < nblocked s)%Z ->
+  (nblocked (release s i pref) <= nblocked s - 1)%Z.
+Proof. exact (release_serves_one s i c pref). Qed.
+Print Assumptions C10_release_serves_settled.
